@@ -301,3 +301,7 @@ for n_ in ("config_logger", "config_filter", "config_rate"):
     declare_pred(n_, L.V, L.V)
 R.EXTERNALS["monkeytype.config:get_default_config"] = R.ExtFn(lambda ip, a, kw, node: ZV(L.const("default_config"), "Config"))
 R.SPEC["default_config"] = ZV(L.const("default_config"), "Config")
+
+# collections.Counter(iterable): some mapping element -> count (its content is irrelevant to every property; only that it is a finite mapping)
+R.EXTERNALS["collections.Counter"] = R.ExtFn(lambda ip, a, kw, node: (lambda d_: (ip.st.assume(L.is_dictlike(d_)), ZV(d_, "Dict[str,int]"))[1])(L.fresh("counter")))
+R.ATTRS[("Trace", "funcname")] = lambda ip, r: ZV(L.fn("trace_funcname", L.V, L.V)(r.term), "str")
